@@ -23,6 +23,7 @@ props! {
     "c08" c08,
     "c09" c09,
     "c10" c10,
+    "c11" c11,
     "c13" c13,
     "c16" c16,
     "c17" c17,
